@@ -25,6 +25,13 @@ class SrvFamily(Family):
                         pre, *_ = vu.negotiation(rng, kind)
                         body, nf = vu.valid_request(rng, code)
                         out.append("srv " + " | ".join(pre + [vu.step(code, 1 | need, body, nf, vu.hout(rng, code, fail))]))
+        # the largest legal message: a body of exactly MAX_MSG_SIZE bytes (config access of 4084 bytes), followed by more traffic
+        for code in (vu.SET_CONFIG, vu.GET_CONFIG):
+            for need in (0, 8):
+                pre, *_ = vu.negotiation(rng, 2)
+                body = vu.config(0, 0xff4, 0, bytes(range(256)) * 15 + bytes(244))
+                out.append("srv " + " | ".join(pre + [vu.step(code, 1 | need, body, 0, vu.hout(rng, code, 0.0)),
+                                                      vu.step(vu.GET_FEATURES, 1, "", 0, "h=ok,v=1")]))
         while len(out) < n:
             pre, *_ = vu.negotiation(rng, rng.choice([0, 1, 2, 2, 2, 3, 4, 5]))
             steps = list(pre)
